@@ -45,8 +45,9 @@ FieldsFor(type, ver, prof) ==
 
 MCWrite == /\ wire = None
            /\ \E type \in PackTypes, ver \in Versions, prof \in Profiles :
-                LET fs == FieldsFor(type, ver, prof) IN
-                UWrite(type, ver, fs, CarriedOf(Layout(type, ver)), Caps(type), EncUdp(type, ver, fs))
+                LET fs == FieldsFor(type, ver, prof)
+                    b == EncUdp(type, ver, fs) IN
+                UWrite(type, ver, fs, CarriedOf(Layout(type, ver)), Caps(type), b, Len(b), FALSE)
 
 MCRead == /\ wire # None /\ got = None
           /\ LET d == DecUdp(wire.type, wire.ver, wire.bytes) IN
